@@ -505,4 +505,112 @@ theorem component_in_group (cfg : Cfg) (st : State) (t : Int) (orc : Oracle) (ds
   subst this
   exact hi'
 
+/-! ## Part 4: the monitor's optimality test passes -/
+
+/-- what the monitor reads back from the model's labels for the sources of a merged sub-net is the
+solver's assignment, and it is optimal with respect to the emitted level -/
+theorem group_asg_optimal (cfg : Cfg) (st : State) (hg : Good st) (t : Int) (orc : Oracle)
+    (dsts : List Pos)
+    (hloc : AddedLocal cfg st t (flGroups cfg st t dsts)
+      ((flAcc cfg st t orc dsts).lvl.drop dsts.length))
+    (g : Group) (hgm : g ∈ flGroups cfg st t dsts) (hne : g.1 ≠ []) :
+    IsOptimal (g.1.map (srcOf (stepCands cfg st t (flAcc cfg st t orc dsts).lvl)))
+      (g.1.map (asgOf cfg st
+        (labelsOf st (flAcc cfg st t orc dsts).choices (flAcc cfg st t orc dsts).lvl.length)
+        (stepCands cfg st t (flAcc cfg st t orc dsts).lvl))) := by
+  obtain ⟨r1, r2, e1, eg, e2, c1, c2, sp⟩ := split_exists cfg st t orc dsts g hgm
+  obtain ⟨a, hch, hlen, hopt⟩ := group_optimal cfg st t orc dsts hloc sp hne
+  have hinv := flGroups_inv cfg st t dsts
+  have hlt : ∀ i ∈ g.1, i < st.srcs.length :=
+    fun i hi => hinv.src_lt i (List.mem_flatMap.mpr ⟨g, hgm, hi⟩)
+  have hcok := flAcc_choiceOK cfg st t orc dsts
+  have hasg : g.1.map (asgOf cfg st
+      (labelsOf st (flAcc cfg st t orc dsts).choices (flAcc cfg st t orc dsts).lvl.length)
+      (stepCands cfg st t (flAcc cfg st t orc dsts).lvl)) = a := by
+    apply List.ext_getElem
+    · simp [hlen]
+    · intro k hk1 hk2
+      simp only [List.getElem_map]
+      have hk : k < g.1.length := by simpa using hk1
+      have hz : (g.1[k], a[k]) ∈ g.1.zip a := by
+        rw [List.mem_iff_getElem]
+        exact ⟨k, by simp [hlen]; exact hk, by simp⟩
+      have hmem : (g.1[k], a[k]) ∈ (flAcc cfg st t orc dsts).choices := by
+        rw [sp.ch, hch]
+        exact List.mem_append_left _ (List.mem_append_right _ hz)
+      have hc := picks_zip_mem g.1 _ a hopt.1.1 g.1[k] a[k] hz
+      rw [srcOf_stepCands cfg st t _ g.1[k] (hlt _ (List.getElem_mem hk))] at hc
+      exact asgOf_of_choice hcok hg (g.1[k], a[k]) hmem hc
+  rw [hasg]
+  exact hopt
+
+/-- **the C02 part of the monitor's relation accepts the model's labels on the emitted level**,
+for every state with distinct used tracks, every level and oracle, under the side condition -/
+theorem flAlgo_optimal (cfg : Cfg) (hdrop : cfg.drop = false) (st : State) (hg : Good st) (t : Int)
+    (orc : Oracle) (dsts : List Pos)
+    (hloc : AddedLocal cfg st t (flGroups cfg st t dsts)
+      ((flAcc cfg st t orc dsts).lvl.drop dsts.length)) :
+    optWhy cfg st t (flAcc cfg st t orc dsts).lvl
+      (labelsOf st (flAcc cfg st t orc dsts).choices (flAcc cfg st t orc dsts).lvl.length) = none := by
+  unfold optWhy
+  simp only
+  generalize hL : (flAcc cfg st t orc dsts).lvl = L at *
+  generalize hlab : labelsOf st (flAcc cfg st t orc dsts).choices L.length = labels at *
+  have h1 : (!(pairwiseDisjointB ((gSrcs (stepCands cfg st t L) (stepGroups cfg st t L)).map
+      groupDests))) = false := by
+    simp [step_groups_disjoint cfg st t L]
+  have h2 : (!((gSrcs (stepCands cfg st t L) (stepGroups cfg st t L)).zip
+      ((gAsg cfg st labels (stepCands cfg st t L) (stepGroups cfg st t L)).zip
+        (stepGroups cfg st t L))).all (fun x => groupOkB cfg x.1 x.2.1 x.2.2)) = false := by
+    simp only [Bool.not_eq_false', gSrcs, gAsg, zip3_map_same, List.all_eq_true, List.mem_map]
+    rintro _ ⟨C, hC, rfl⟩
+    simp only
+    unfold groupOkB
+    by_cases hne : C.1 = []
+    · simp [hne]
+    · have hise : (C.1.map (srcOf (stepCands cfg st t L))).isEmpty = false := by simpa using hne
+      have hmapne : C.1.map (srcOf (stepCands cfg st t L)) ≠ [] := by simpa using hne
+      have hClt : ∀ i ∈ C.1, i < st.srcs.length := fun i hi => group_src_lt cfg st t L C hC i hi
+      have hsorted : AllSorted (C.1.map (srcOf (stepCands cfg st t L))) := by
+        intro s hs
+        simp only [List.mem_map] at hs
+        obtain ⟨i, hi, rfl⟩ := hs
+        rw [srcOf_stepCands cfg st t L i (hClt i hi)]
+        exact candsOf_sorted cfg t L _
+      have hnull : ∀ s ∈ C.1.map (srcOf (stepCands cfg st t L)), HasNull s := by
+        intro s hs
+        simp only [List.mem_map] at hs
+        obtain ⟨i, hi, rfl⟩ := hs
+        rw [srcOf_stepCands cfg st t L i (hClt i hi)]
+        exact ⟨cfg.B, candsOf_hasNull cfg t L _⟩
+      -- the merged sub-net that contains this component, and optimality on the component
+      subst hL
+      obtain ⟨g, hgm, hsub⟩ := component_in_group cfg st t orc dsts hloc C hC hne
+      have hinv := flGroups_inv cfg st t dsts
+      have hgne : g.1 ≠ [] := by
+        obtain ⟨i0, hi0⟩ := List.exists_mem_of_ne_nil _ hne
+        exact List.ne_nil_of_mem (hsub i0 hi0)
+      have hgnd : g.1.Nodup := by
+        have := hinv.src_nodup
+        unfold List.Nodup at this
+        rw [List.pairwise_flatMap] at this
+        exact this.1 g hgm
+      have hglt : ∀ i ∈ g.1, i < st.srcs.length :=
+        fun i hi => hinv.src_lt i (List.mem_flatMap.mpr ⟨g, hgm, hi⟩)
+      have hgopt := group_asg_optimal cfg st hg t orc dsts hloc g hgm hgne
+      rw [hlab] at hgopt
+      have hCopt := component_optimal cfg st t _ C hC g.1 hgnd hglt hsub _ hgopt
+      obtain ⟨c', b, hsol⟩ := solveOrdered_total _ hmapne hsorted hnull
+      obtain ⟨hbadm, hbcost⟩ := solveOrdered_admissible _ c' b hsol
+      obtain ⟨c'', b'', hsol', hle⟩ := solveOrdered_optimal _ hmapne hsorted _ hCopt.1
+      rw [hsol] at hsol'
+      cases hsol'
+      have hge := hCopt.2 b hbadm
+      have hceq : cost (C.1.map (asgOf cfg st labels
+          (stepCands cfg st t (flAcc cfg st t orc dsts).lvl))) = c' := by omega
+      simp only [hise, Bool.false_eq_true, if_false, hdrop, Bool.false_and, hsol, hceq,
+        beq_self_eq_true, Bool.and_true, Bool.and_eq_true, List.all_eq_true]
+      exact ⟨fun s hs => (sortedB_iff s).mpr (hsorted s hs), (admissibleB_iff _ _ _).mpr hCopt.1⟩
+  simp only [h1, h2, Bool.false_eq_true, if_false]
+
 end TrackpyV.FindLink
